@@ -27,8 +27,11 @@ def targeted_pair(rng):
     if t == "sibling":
         # two indicators of one class that agree in all parameters but one: a helper series named
         # after only some of the parameters would be shared between them
-        k = rng.choice(["MACD", "MACD", "STOCH", "TSI", "ADX", "KC", "SUPERTREND", "BBANDS", "STDEVTHRES", "HMA", "RSI"])
+        k = rng.choice(["MACD", "MACD", "STOCH", "TSI", "ADX", "KC", "SUPERTREND", "BBANDS", "STDEVTHRES", "HMA", "RSI",
+                        "VWAP", "VWAP", "ATR", "STDEV"])
         a = X.gen_spec(rng, k, inputs=("close",))
+        if k == "VWAP":       # its period only shows in the name
+            a["kw"]["period"] = rng.choice([5, 10])
         a["round_value"] = 4
         b = {"kind": k, "kw": dict(a["kw"]), "round_value": 4}
         nums = [key for key, v in b["kw"].items() if isinstance(v, int) and not isinstance(v, bool)]
